@@ -3,17 +3,17 @@ CONSTANTS
   Forms <- OneForm
   Indents <- Ind012
   MaxIdAnns = 0
-  MaxParams = 1
+  MaxParams = 0
   MaxParamAnns = 0
   MaxPartLines = 2
-  MaxDescLines = 2
-  MaxParas = 2
-  MaxTags = 2
-  TagNames <- TagsAll
+  MaxDescLines = 0
+  MaxParas = 0
+  MaxTags = 1
+  TagNames <- TagsRS
   MaxTagAnns = 2
-  MaxCont = 1
+  MaxCont = 2
   MaxNoise = 1
-  AtReturns = TRUE
+  AtReturns = FALSE
   FaultKinds <- NoFaults
   MaxFaults = 0
   KeepLines = FALSE
